@@ -710,6 +710,47 @@ def body_to_sl2(case, ctx):
                2e-6 * nA ** 4)
 
 
+@st.composite
+def sl2_stack_case(draw):
+    shape = draw(st.sampled_from([[1], [2], [3], [3], [4], [2, 2], [3, 3], [2, 3], [1, 3]]))
+    cnt = 1
+    for x in shape:
+        cnt *= x
+    return dict(shape=shape, mats=[draw(real2()) for _ in range(cnt)])
+
+
+def body_sl2_iso_arrays(case, ctx):
+    """sl2_iso / from_sl2 are documented for arrays of shape (..., 2, 2): the composite
+    isometry must be, unit by unit, the isometry of the unit matrix (stacks of exactly
+    3 matrices and square grids are the shapes where an axis slip stays silent)"""
+    from geometry_tools import hyperbolic
+    shape = tuple(case["shape"])
+    A = np.array([dec_real(c) for c in case["mats"]]).reshape(shape + (2, 2))
+    ctx.label("shape=%s" % (shape,), "n>=3", "rank>=1", "noncommuting")
+    iso = hyperbolic.sl2_iso(A.copy())
+    ctx.check(type(iso) is hyperbolic.Isometry, "sl2_iso returns an Isometry")
+    M = np.asarray(iso.matrix)
+    ctx.check(M.shape == shape + (3, 3), "composite shape of sl2_iso(array)", got=M.shape,
+              want=shape + (3, 3))
+    J = np.diag([-1.0, 1.0, 1.0])
+    pt = hyperbolic.Point(np.array([0.2, -0.3]), model="klein")
+    img = np.asarray((iso @ pt).coords("klein"))
+    for idx in np.ndindex(*shape):
+        unit = hyperbolic.sl2_iso(A[idx].copy())
+        U = np.asarray(unit.matrix)
+        sc = max(1.0, float(np.abs(U).max()))
+        ctx.close("sl2_iso(array)[idx] = sl2_iso(array[idx])", M[idx], U, rtol=0,
+                  atol=1e-12 * sc)
+        ctx.close("column matrix of unit idx = sl2_to_so21(A[idx])", M[idx].T,
+                  lie.sl2_to_so21(A[idx]), rtol=0, atol=1e-12 * sc)
+        ctx.close("unit idx preserves diag(-1,1,1)", M[idx] @ J @ M[idx].T, J, rtol=0,
+                  atol=1e-9 * sc ** 2)
+        ctx.close("unit idx moves a point like the unit isometry", img[idx],
+                  np.asarray((unit @ pt).coords("klein")), rtol=0, atol=1e-9 * sc ** 2)
+    iso2 = hyperbolic.Isometry.from_sl2(A.copy())
+    ctx.close("from_sl2 = sl2_iso on arrays", np.asarray(iso2.matrix), M, rtol=0, atol=0)
+
+
 # documented examples of sl2_iso (module docstring of geometry_tools.hyperbolic)
 def exhaustive_doc_examples(tier):
     return [("the two sl2_iso examples of the hyperbolic module docstring", [dict(ex=0), dict(ex=1)])]
@@ -759,6 +800,8 @@ LAWS = [
         quick=250, thorough=1750, shards=(1, 4)),
     Law("isometry_to_sl2", pair_real2(allow_neg=True), body_to_sl2, nt, quick=150, thorough=1050,
         shards=(1, 4)),
+    Law("sl2_iso_arrays_vs_loop", sl2_stack_case(), body_sl2_iso_arrays, nt, quick=120,
+        thorough=800, shards=(1, 4)),
     Law("sl2_iso_documented_examples", None, body_doc_examples, nt,
         exhaustive=exhaustive_doc_examples),
 ]
